@@ -83,6 +83,9 @@ func c14Scenarios(era drive.Era, thorough bool) []c14Scenario {
 }
 
 func runC14(c *core.Ctx, r *core.Result) {
+	if (c.Only == "" && c.Shard == 0) || strings.HasPrefix(c.Only, "all-assets/") {
+		c14AllAssets(c, r)
+	}
 	stages := []int{drive.StV20, drive.StV20Dev, drive.StV202, drive.StPIP10}
 	idx := 0
 	for _, st := range stages {
@@ -244,6 +247,42 @@ func c14One(c *core.Ctx, r *core.Result, era drive.Era, sc c14Scenario, key stri
 			panic(fmt.Sprintf("harness: C14 holder %d not funded as specified: %v", h.key, s1.Balances[hexAddr(d)]))
 		}
 	}
+	excludedExtra := map[string]bool{hexAddr(miner576): true}
+	for i := 0; i < 25; i++ { // SPR payout addresses of the zeroEUR scenario
+		excludedExtra[hexAddr(kit.Addr(700+i))] = true
+	}
+	S, P, n, done := c14Oracle(r, era, key, s1, s2, post, excludedExtra)
+	if done {
+		return
+	}
+	viol := func(sig, desc string, detail ...string) {
+		r.Violate(core.Violation{Key: key, Signature: "C14:" + sig + ":" + era.Name, Desc: desc, Detail: detail})
+	}
+	capB := new(big.Int).SetUint64(c14Cap)
+	// no staking payouts outside snapshot heights
+	for _, hh := range [][2]uint32{{574, 575}, {576, 577}} {
+		for _, h := range sc.holders {
+			d := kit.Addr(h.key)
+			if states[hh[0]].Bal(d, "PEG") != states[hh[1]].Bal(d, "PEG") {
+				viol("peg-moved-outside-snapshot-height", fmt.Sprintf("holder key %d: PEG changed between %d and %d", h.key, hh[0], hh[1]))
+			}
+		}
+	}
+	cls := "below-cap"
+	if S.Cmp(capB) > 0 {
+		cls = "above-cap"
+	}
+	r.Outcome(cls)
+	if len(r.Samples) < 4 {
+		r.Sample(map[string]interface{}{"scenario": key, "addresses_compared": n, "total_stake": S.String(), "total_paid": P})
+	}
+	_ = strings.TrimSpace
+}
+
+// c14Oracle checks the payouts of the snapshot block 576 for EVERY address of the ledger: stake = value at the rates used
+// at 576 of min(balance at the first snapshot, balance at this one) over the non-PEG assets; payouts proportional to stake
+// (+- one unit per address), never above the cap, equal to it when total stake exceeds it.
+func c14Oracle(r *core.Result, era drive.Era, key string, s1, s2, post *LedgerView, excludedExtra map[string]bool) (*big.Int, int64, int64, bool) {
 	// rates used for the valuation
 	rates := post.Rates[576]
 	if len(rates) == 0 {
@@ -251,17 +290,17 @@ func c14One(c *core.Ctx, r *core.Result, era drive.Era, sc c14Scenario, key stri
 			rates = post.Rates[post.LastRatedBefore(576)]
 		} else {
 			r.Outcome("pre-2.0.2-ungraded-snapshot")
-			return // C08-K2 territory: no rule given by the property either
+			return nil, 0, 0, true // C08-K2 territory: no rule given by the property either
 		}
 	}
-	excluded := map[string]bool{hexAddr(miner576): true}
+	excluded := map[string]bool{}
+	for k := range excludedExtra {
+		excluded[k] = true
+	}
 	for _, dv := range node.DeveloperRewardAddreses {
 		if a, err := factom.NewFAAddress(dv.DevAddress); err == nil {
 			excluded[hexAddr(a)] = true
 		}
-	}
-	for i := 0; i < 25; i++ { // SPR payout addresses of the zeroEUR scenario
-		excluded[hexAddr(kit.Addr(700+i))] = true
 	}
 	type st struct {
 		addr  string
@@ -339,24 +378,118 @@ func c14One(c *core.Ctx, r *core.Result, era drive.Era, sc c14Scenario, key stri
 		}
 		viol("payout-not-proportional-to-min-stake", "staking payouts at 576 do not follow stake = value(min(previous snapshot, this snapshot))", bad...)
 	}
-	// no staking payouts outside snapshot heights
-	for _, hh := range [][2]uint32{{574, 575}, {576, 577}} {
-		for _, h := range sc.holders {
-			d := kit.Addr(h.key)
-			if states[hh[0]].Bal(d, "PEG") != states[hh[1]].Bal(d, "PEG") {
-				viol("peg-moved-outside-snapshot-height", fmt.Sprintf("holder key %d: PEG changed between %d and %d", h.key, hh[0], hh[1]))
+	return S, P, n, false
+}
+
+// c14AllAssets: one holder per asset (61 holders with one USD worth of one asset each) next to the address that acquired all
+// of them along the compressed mainnet timeline of C13: an asset the snapshot or the valuation loses shows as an unpaid holder.
+func c14AllAssets(c *core.Ctx, r *core.Result) {
+	key := "all-assets/one-holder-per-asset"
+	if !c.Want(key) {
+		return
+	}
+	r.Eval()
+	era := c13Era()
+	era.Name = "c13-timeline"
+	era.Apply()
+	R := kit.Addr(KR)
+	rates := c13Rates()
+	b := drive.NewBuilder(era)
+	graded := func(s drive.BlockSpec) drive.BlockSpec {
+		s.Rates = rates
+		if s.OPRPayTo == "" {
+			s.OPRPayTo = kit.AddrStr(KM)
+		}
+		return s
+	}
+	convAll := func(from string, lo, hi int, amt uint64) []fake.Entry {
+		var out []fake.Entry
+		for i := lo; i < hi; i++ {
+			to := assetName(i)
+			if to == from || to == "PEG" {
+				continue
+			}
+			out = append(out, b.Tx(KR, kit.Conversion(R, from, amt, to)))
+		}
+		return out
+	}
+	for b.Next() < 330 {
+		h := b.Next()
+		s := drive.BlockSpec{}
+		switch h {
+		case 289:
+			s.OPRPayTo = R.String()
+			s.Factoid = []fake.FTx{kit.Burn(KR, 1e6*1e8, BurnRCD(), 77)}
+		case 290:
+			s.OPRPayTo = R.String()
+			s.TX = convAll("pFCT", 1, 30, 1000e8)
+		case 305:
+			s.TX = convAll("pUSD", 30, 42, 10e8)
+		case 313:
+			s.TX = convAll("pUSD", 42, 62, 10e8)
+		case 320:
+			// one USD worth of each asset to its own holder
+			var txs []kit.Tx
+			for i := 1; i < 62; i++ {
+				a := assetName(i)
+				amt := uint64(1e16) / rates[i]
+				txs = append(txs, kit.Transfer(R, a, amt, kit.Addr(1000+i)))
+			}
+			for lo := 0; lo < len(txs); lo += 20 {
+				hi := lo + 20
+				if hi > len(txs) {
+					hi = len(txs)
+				}
+				s.TX = append(s.TX, b.Tx(KR, txs[lo:hi]...))
 			}
 		}
+		b.Add(graded(s))
 	}
-	cls := "below-cap"
-	if S.Cmp(capB) > 0 {
-		cls = "above-cap"
+	for b.Next() < 431 {
+		b.AddEmpty(1)
 	}
-	r.Outcome(cls)
-	if len(r.Samples) < 4 {
+	b.Add(graded(drive.BlockSpec{}))
+	b.Add(graded(drive.BlockSpec{})) // 432
+	for b.Next() < 575 {
+		b.AddEmpty(1)
+	}
+	b.Add(graded(drive.BlockSpec{}))
+	miner576 := kit.Addr(501)
+	b.Add(graded(drive.BlockSpec{OPRPayTo: miner576.String()})) // 576
+	b.Add(graded(drive.BlockSpec{}))
+	dir := drive.Scratch("c14a")
+	run := &Run{B: b, Dir: dir, DBPath: dir + "/db"}
+	defer run.Close()
+	states := map[uint32]*LedgerView{}
+	for _, h := range []uint32{431, 575, 576} {
+		if out := run.SyncTo(h); !out.Reached {
+			r.Count("inconclusive-"+outcomeClass(out), 1)
+			return
+		}
+		run.D.Close()
+		run.D = nil
+		v, err := ReadLedger(drive.DBFileOf(run.DBPath))
+		if err != nil {
+			panic(err)
+		}
+		states[h] = v
+	}
+	// self-check: every holder holds its asset at the first snapshot
+	held := 0
+	for i := 1; i < 62; i++ {
+		if states[431].Bal(kit.Addr(1000+i), assetName(i)) > 0 {
+			held++
+		}
+	}
+	if held < 55 {
+		panic(fmt.Sprintf("harness: C14 all-assets: only %d of 61 holders hold their asset", held))
+	}
+	r.NonTrivial(key)
+	r.Count("all-assets-holders-funded", held)
+	S, P, n, done := c14Oracle(r, era, key, states[431], states[575], states[576], map[string]bool{hexAddr(miner576): true})
+	if !done && len(r.Samples) < 5 {
 		r.Sample(map[string]interface{}{"scenario": key, "addresses_compared": n, "total_stake": S.String(), "total_paid": P})
 	}
-	_ = strings.TrimSpace
 }
 
 func hexAddr(a factom.FAAddress) string { return fmt.Sprintf("%x", a[:]) }
